@@ -4,8 +4,8 @@
    including what makes it dangerous for redirects: stripping of leading C0 controls and
    spaces, deletion of TAB/CR/LF anywhere, scheme detection with [A-Za-z][A-Za-z0-9+.-]*:,
    the '//' network location, the urljoin merge and dot-segment removal.
-   Definitions only.  Not modelled: _checknetloc (NFKC check, no effect on latin-1 text) and
-   _check_bracketed_host (a netloc carrying both '[' and ']' yields SUnsupported). *)
+   Definitions only.  _checknetloc is modelled by the table of characters whose NFKC form contains a
+   delimiter; _check_bracketed_host is not (a netloc carrying both '[' and ']' yields SUnsupported). *)
 From Coq Require Import NArith List Bool String.
 Require Import Webob.Lib.Val Webob.Lib.PyStr.
 Import ListNotations.
@@ -25,6 +25,10 @@ Fixpoint split_first (d : N) (s : str) : option (str * str) :=
            | None => None
            end
   end.
+
+(* if d in s: a, b = s.split(d, 1)  else  a, b = s, '' *)
+Definition split_or (d : N) (s : str) : str * str :=
+  match split_first d s with Some (a, b) => (a, b) | None => (s, []) end.
 
 (* s.rfind(d) >= 0 ? (s[:i], s[i+1:]) *)
 Definition split_last (d : N) (s : str) : option (str * str) :=
@@ -92,11 +96,19 @@ Definition take_scheme (dflt url : str) : str * str :=
   end.
 
 (* if url[:2] == '//': netloc, url = _splitnetloc(url, 2) *)
+Definition starts2 (a b : N) (s : str) : bool :=
+  match s with x :: y :: _ => (x =? a) && (y =? b) | _ => false end.
+
 Definition take_netloc (url : str) : str * str :=
-  match url with
-  | 47 :: 47 :: r => span_until is_delim r
-  | _ => ([], url)
-  end.
+  if starts2 47 47 url then span_until is_delim (skipn 2 url) else ([], url).
+
+(* _checknetloc: a netloc with a character whose NFKC form contains one of / ? # @ : is refused.
+   The code points below are all such characters of Unicode 15.0 (the harness recomputes the list
+   with unicodedata on every run and compares). *)
+Definition nfkc_delim : list N :=
+  [8263; 8264; 8265; 8448; 8449; 8453; 8454; 10868; 65043; 65046; 65109; 65110; 65119; 65131;
+   65283; 65295; 65306; 65311; 65312].
+Definition checknetloc (netloc : str) : bool := existsb (fun c => mem_n c nfkc_delim) netloc.
 
 Definition urlsplit (url0 scheme0 : str) : split_res :=
   let url := clean_url url0 in
@@ -107,9 +119,10 @@ Definition urlsplit (url0 scheme0 : str) : split_res :=
   let rb := mem_n 93 netloc in
   if xorb lb rb then SValueError
   else if lb && rb then SUnsupported
+  else if checknetloc netloc then SValueError
   else
-    let (url, fragment) := match split_first 35 url with Some (a, b) => (a, b) | None => (url, []) end in
-    let (url, query) := match split_first 63 url with Some (a, b) => (a, b) | None => (url, []) end in
+    let (url, fragment) := split_or 35 url in      (* if '#' in url: url, fragment = url.split('#', 1) *)
+    let (url, query) := split_or 63 url in         (* if '?' in url: url, query = url.split('?', 1) *)
     SOk scheme netloc url query fragment.
 
 (* ---------- urlparse ---------- *)
@@ -144,9 +157,6 @@ Definition urlparse (url scheme : str) : parse_res :=
   end.
 
 (* ---------- urlunsplit / urlunparse ---------- *)
-Definition starts2 (a b : N) (s : str) : bool :=
-  match s with x :: y :: _ => (x =? a) && (y =? b) | _ => false end.
-
 Definition urlunsplit (scheme netloc url query fragment : str) : str :=
   let url :=
     if negb (is_empty netloc) || (negb (is_empty scheme) && mem_str scheme uses_netloc && negb (starts2 47 47 url))
@@ -219,10 +229,8 @@ Definition urljoin (base url : str) : join_res :=
                 let base_parts := split_c 47 bpath in
                 let base_parts := if is_empty (last base_parts []) then base_parts else removelast base_parts in
                 let segments :=
-                  match path with
-                  | 47 :: _ => split_c 47 path
-                  | _ => filter_middle (base_parts ++ split_c 47 path)
-                  end in
+                  if starts_with [47] path then split_c 47 path
+                  else filter_middle (base_parts ++ split_c 47 path) in
                 let resolved := resolve segments [] in
                 let lastseg := last segments [] in
                 let resolved := if str_eqb lastseg dot || str_eqb lastseg dotdot then resolved ++ [[]] else resolved in
